@@ -267,6 +267,17 @@ func formatStmt(ctx *formatCtx, stmt ast.Stmt) {
 	}
 }
 
+// formatSimpleStmt formats the init or post statement of an if, for or switch
+// header. A call there keeps its call style: a command-style call cannot be
+// followed by the `;` or `{` of the header.
+func formatSimpleStmt(ctx *formatCtx, stmt ast.Stmt) {
+	if v, ok := stmt.(*ast.ExprStmt); ok {
+		formatExpr(ctx, v.X, &v.X)
+		return
+	}
+	formatStmt(ctx, stmt)
+}
+
 func formatExprStmt(ctx *formatCtx, v *ast.ExprStmt) {
 	switch x := v.X.(type) {
 	case *ast.CallExpr:
@@ -284,7 +295,7 @@ func formatSwitchStmt(ctx *formatCtx, v *ast.SwitchStmt) {
 	old := ctx.enterBlock()
 	defer ctx.leaveBlock(old)
 
-	formatStmt(ctx, v.Init)
+	formatSimpleStmt(ctx, v.Init)
 	formatExpr(ctx, v.Tag, &v.Tag)
 	formatBlockStmt(ctx, v.Body)
 }
@@ -293,7 +304,7 @@ func formatTypeSwitchStmt(ctx *formatCtx, v *ast.TypeSwitchStmt) {
 	old := ctx.enterBlock()
 	defer ctx.leaveBlock(old)
 
-	formatStmt(ctx, v.Init)
+	formatSimpleStmt(ctx, v.Init)
 	formatStmt(ctx, v.Assign)
 	formatBlockStmt(ctx, v.Body)
 }
@@ -302,7 +313,7 @@ func formatIfStmt(ctx *formatCtx, v *ast.IfStmt) {
 	old := ctx.enterBlock()
 	defer ctx.leaveBlock(old)
 
-	formatStmt(ctx, v.Init)
+	formatSimpleStmt(ctx, v.Init)
 	formatExpr(ctx, v.Cond, &v.Cond)
 	formatBlockStmt(ctx, v.Body)
 	formatStmt(ctx, v.Else)
@@ -330,8 +341,9 @@ func formatForStmt(ctx *formatCtx, v *ast.ForStmt) {
 	old := ctx.enterBlock()
 	defer ctx.leaveBlock(old)
 
-	formatStmt(ctx, v.Init)
+	formatSimpleStmt(ctx, v.Init)
 	formatExpr(ctx, v.Cond, &v.Cond)
+	formatSimpleStmt(ctx, v.Post)
 	formatBlockStmt(ctx, v.Body)
 }
 
